@@ -101,6 +101,19 @@ func (w *World) fineEnabled(def, alts []Event) []Event {
 	sort.SliceStable(ps, func(i, j int) bool { return ps[i].name < ps[j].name })
 	var runs []Event
 	var lastEv *Event
+	// default: keep running the goroutine that ran last; if it cannot continue (blocked,
+	// finished, or an environment event has just started a new one) the goroutine that
+	// parked most recently
+	pref := w.lastRun
+	found := false
+	for _, pg := range ps {
+		if pg.name == pref {
+			found = true
+		}
+	}
+	if !found && len(w.parked) > 0 {
+		pref = w.parked[len(w.parked)-1].name
+	}
 	for _, pg := range ps {
 		pg := pg
 		ev := Event{Name: "run:" + pg.name + "@" + pg.kind, tgt: "", run: func() {
@@ -113,7 +126,7 @@ func (w *World) fineEnabled(def, alts []Event) []Event {
 			w.lastRun = pg.name
 			close(pg.ch)
 		}}
-		if pg.name == w.lastRun {
+		if pg.name == pref {
 			e := ev
 			lastEv = &e
 		} else {
